@@ -13,8 +13,8 @@ Line protocol for C10.  ONE LINE = ONE SELF-CONTAINED HISTORY over any number of
 
 (width `64`: `impl Index for usize`; width `6`: an `Index` type of the harness with `MAX = 6`, so that "index full" is reached by every
 history; `esc`: clone the term `Term::eq` to <term> that store <n> lends and keep it as <x>; `via`:
-how the harness hands terms to the stores — accessors returning owned or borrowed `MownStr`s —, the
-model merges the two branches of `ensure_owned`, see `Heap.allocTerm`.)
+how the harness hands terms to the stores — accessors returning owned or borrowed `MownStr`s —: which
+branch of `ensure_owned` the model runs for every string, see `Heap.feedStr`.)
 
 The model runs `XWorld.step Gen.cloneKind Gen.termEscapes` (`.base op` = `World.step Gen.cloneKind`) —
 `clone` and the term type are what the SOURCE defines (generated).
@@ -284,7 +284,11 @@ def exec1 (st : HState) (toks : List String) : HState × String :=
     | _ => (st, "bad")
   | ["resc", x] => applyX st (.readEsc (nameId x))
   | ["desc", x] => applyX st (.dropEsc (nameId x))
-  | ["via", m] => if m == "own" || m == "ref" then (st, "ok") else (st, "bad")
+  | ["via", m] =>
+    if m == "own" || m == "ref" then
+      let (st', r) := apply1 st (.via (m == "own")) id
+      (st', resStr r)
+    else (st, "bad")
   | _ => (st, "bad")
 
 def splitOps (toks : List String) : List (List String) :=
